@@ -50,13 +50,14 @@ structure Dfa where
   subs : List Auto
 deriving Inhabited, Repr
 
-/-- `DFAInternPool::intern`: equality of automata as the code defines it (`IndexMap`/`IndexSet`
-equality ignores order). -/
+/-- `DFAInternPool::intern`: equality of automata as the code defines it since repair 131db37 — the
+same transitions and the same interned inputs *in the same order* (ids are positions), the same set
+of accepting states. -/
 def Auto.same (a b : Auto) : Bool :=
   a.start == b.start &&
-  a.trans.all (b.trans.contains ·) && b.trans.all (a.trans.contains ·) &&
+  a.trans == b.trans &&
   normSet a.acc == normSet b.acc &&
-  a.inputs.all (b.inputs.contains ·) && b.inputs.all (a.inputs.contains ·)
+  a.inputs == b.inputs
 
 /-- A schedule: given the step number and the current work-list length, which entry is next. -/
 abbrev Schedule := Nat → Nat → Nat
